@@ -35,6 +35,11 @@ pub enum Family {
 
 #[derive(Serialize, Deserialize, Clone, Debug)]
 pub struct SortScript {
+    /// after the main sort: this many additional small slices of the `Segments` family (plateaus,
+    /// runs, outliers: the shapes the sort's shortcuts key on), sorted through the same facade on
+    /// the same pool under the key-only weak order
+    #[serde(default)]
+    pub sweep: u32,
     pub len: u32,
     pub family: Family,
     pub data_seed: u64,
@@ -121,6 +126,59 @@ impl SortScript {
 
 fn soft(class: &str, msg: String) {
     sim::soft_violation("C18", class, msg)
+}
+
+/// Structured small inputs: an ascending prefix (possibly with one swapped pair), then segments:
+/// plateaus with a few outliers, ascending runs, descending runs, over slowly growing keys.
+pub fn segments(rng: &mut SplitMix) -> Vec<u32> {
+    let mut v: Vec<u32> = Vec::new();
+    let mut base = 10u32;
+    if rng.below(3) != 0 {
+        let l = 20 + rng.below(70) as u32;
+        v.extend(base..base + l);
+        if rng.below(2) == 0 && l > 3 {
+            let i = 1 + rng.below(l as u64 - 2) as usize;
+            v.swap(i, i + 1);
+        }
+        base += l + 900;
+    }
+    let target = 50 + rng.below(260) as usize;
+    while v.len() < target {
+        match rng.below(6) {
+            0..=2 => {
+                // plateau, possibly repeated later (few distinct keys), with 0..2 outliers
+                let k = 3 + rng.below(40) as usize;
+                let start = v.len();
+                v.extend(std::iter::repeat(base).take(k));
+                for _ in 0..rng.below(3) {
+                    let i = start + rng.below(k as u64) as usize;
+                    v[i] = base + 1 + rng.below(12) as u32;
+                }
+                if rng.below(3) == 0 {
+                    base += 1 + rng.below(9) as u32;
+                }
+            }
+            3 => {
+                let k = 1 + rng.below(4) as u32;
+                for _ in 0..k {
+                    v.push(base + 1 + rng.below(15) as u32);
+                }
+            }
+            4 => {
+                let k = 3 + rng.below(25) as u32;
+                v.extend(base + 20..base + 20 + k);
+                base += 20 + k;
+            }
+            _ => {
+                let k = 6 + rng.below(12) as u32;
+                v.extend((base + 50..base + 50 + k).rev());
+                if rng.below(2) == 0 {
+                    base += 50 + k;
+                }
+            }
+        }
+    }
+    v
 }
 
 impl Job for SortScript {
@@ -249,6 +307,27 @@ impl Job for SortScript {
         if cancelled && !was_raised {
             soft("spurious-cancel", format!("sort reported 'cancelled' although the cancel flag was never raised ({})", self.summary()));
         }
+        // input sweep (no canceller): the input dimension of the quantifier is cheap to sample
+        // because comparisons are not scheduling points
+        let never = AtomicBool::new(false);
+        let mut rng = SplitMix::derive(self.data_seed, 23);
+        for k in 0..self.sweep {
+            let keys = segments(&mut rng);
+            let mut w: Vec<(u32, u32)> = keys.iter().copied().zip(0..).collect();
+            let c = pool.install(|| nucleo::verif_facade::par_quicksort(&mut w, |a: &(u32, u32), b: &(u32, u32)| a.0 < b.0, &never));
+            let mut seen = vec![false; keys.len()];
+            let perm = w.len() == keys.len() && w.iter().all(|(key, i)| (*i as usize) < keys.len() && keys[*i as usize] == *key && !std::mem::replace(&mut seen[*i as usize], true));
+            if !perm {
+                soft("not-a-permutation", format!("sweep slice #{k} (len {}) is not a permutation of its input after the sort; input {keys:?}", keys.len()));
+            }
+            if let Some(p) = w.windows(2).position(|x| x[1].0 < x[0].0) {
+                soft("not-sorted", format!("sweep slice #{k} (len {}): sort reported cancelled={c} but elements {p} and {} are out of order ({} then {}); input {keys:?}", keys.len(), p + 1, w[p].0, w[p + 1].0));
+            }
+            if c {
+                soft("spurious-cancel", format!("sweep slice #{k}: sort reported 'cancelled' although the flag was never raised"));
+            }
+        }
+        sim::with(|s| *s.probes.entry("sort.sweep_slices").or_insert(0) += self.sweep as u64);
         sim::with(|s| *s.probes.entry("sort.comparisons").or_insert(0) += comparisons.get());
         drop(pool);
     }
@@ -295,6 +374,7 @@ pub fn generate(rng: &mut SplitMix, _focus: &str, thorough: bool) -> SortScript 
     let est = pick(rng, &[20u64, 60, 200]);
     let sched = SchedCfg::generate(rng, est, 0, 2_000_000);
     SortScript {
+        sweep: if len <= 2100 { 40 } else { 8 },
         len,
         family,
         data_seed: rng.next(),
@@ -329,6 +409,15 @@ pub fn candidates(s: &SortScript) -> Vec<SortScript> {
         let mut c = s.clone();
         c.family = Family::Random;
         out.push(c);
+    }
+    if s.sweep > 0 {
+        for k in [0, s.sweep / 2, s.sweep - 1] {
+            if k < s.sweep {
+                let mut c = s.clone();
+                c.sweep = k;
+                out.push(c);
+            }
+        }
     }
     out
 }
